@@ -96,7 +96,9 @@ Definition check_c11_pinned := check_c11_with pinned.
 
 Inductive sstep :=
 | SFind (requester : N) (id : list N) (ds : list N)
-| SPing (ip port : N).
+| SPing (ip port : N)
+| SReady (bucket : N)      (* hook: the pending node of that bucket becomes ready now *)
+| SIter.                   (* a plain iteration over the table (applies every ready pending node) *)
 
 (* id, local id, (vid of the local record, local seq), max_nodes_response, sizes (vid, size),
    table content as insert_or_update calls (key, value, connected, incoming) with the expected dump
@@ -124,6 +126,11 @@ Definition enc_packet (rsize : val -> N) (p : packet) : list N :=
   p_total p :: N.of_nat (length (p_id p)) :: p_id p
     ++ enc_list enc_item (p_nodes p) ++ [wire_size (nodes_msg_size rsize p)].
 
+(* the service loop drains the queue of applied pending nodes (Service::bucket_maintenance_poll turns
+   each into a NodeInserted event); the harness does the same before it dumps the table *)
+Definition drain_applied (t : table) : table :=
+  {| local := local t; buckets := buckets t; applied := [] |}.
+
 Fixpoint c14_steps (t : table) (lv : val) (lseq : N) (maxn : nat) (rsize : val -> N)
   (steps : list (sstep * list N)) (idx : N) : option (N * list N * list N) :=
   match steps with
@@ -132,13 +139,19 @@ Fixpoint c14_steps (t : table) (lv : val) (lseq : N) (maxn : nat) (rsize : val -
     let '(t', enc) :=
       match s with
       | SFind requester id ds =>
-        let (t', ps) := serve_findnode svc_config t lv requester id ds maxn rsize (1000000 + idx) in
+        let (t0, ps) := serve_findnode svc_config t lv requester id ds maxn rsize (1000000 + idx) in
+        let t' := drain_applied t0 in
         (t', enc_list (enc_packet rsize) ps ++ [hashN (dump t')])
       | SPing ip port =>
         (t, match serve_ping lseq ip port with
             | Some p => [1; pg_seq p; pg_ip p; pg_port p]
             | None => [0]
             end)
+      | SReady i =>
+        let t' := t_force_ready t (N.to_nat i) (1000000 + idx) in (t', [hashN (dump t')])
+      | SIter =>
+        let (t0, _) := t_iter svc_config t (1000000 + idx) in
+        let t' := drain_applied t0 in (t', [hashN (dump t')])
       end in
     if list_N_eqb enc expect then c14_steps t' lv lseq maxn rsize rest (idx + 1)
     else Some (idx, enc, expect)
